@@ -204,6 +204,7 @@ pub fn subset_module(rng: &mut Rng, body_ops: &[SInst]) -> Vec<SInst> {
         let nb = 1 + rng.below(3);
         let mut labels: Vec<u32> = vec![];
         let mut values_f: Vec<u32> = vec![];
+        let mut pending_f: Vec<u32> = vec![];   // ids some phi already names, to be defined by a later instruction
         // values of pointer / struct / vector / array type, defined by block instructions
         let mut pools: Vec<(u32, Vec<u32>)> = vec![(s.t_ptr, vec![]), (s.t_st, vec![]), (s.t_v4, vec![]), (s.t_arr2, vec![])];
         for b in 0..nb {
@@ -215,6 +216,16 @@ pub fn subset_module(rng: &mut Rng, body_ops: &[SInst]) -> Vec<SInst> {
                     let p = n; n += 1;
                     v.push(i(245, Some(s.t_f32), Some(p), vec![idr(values_f[0]), idr(labels[0]), idr(values_f[1]), idr(labels[0])]));
                 }
+            }
+            // loop-carried phis: a source defined LATER (in this block or a following one), a source that is itself a phi,
+            // a constant source; incoming labels of blocks not seen yet
+            if b > 0 && rng.chance(1, 2) {
+                let late = n; n += 1;
+                pending_f.push(late);
+                let p = n; n += 1;
+                v.push(i(245, Some(s.t_f32), Some(p), vec![idr(late), idr(l), idr(s.c_f), idr(labels[0])]));
+                let q = n; n += 1;
+                v.push(i(245, Some(s.t_f32), Some(q), vec![idr(p), idr(l + 1000), idr(late), idr(labels[0])]));
             }
             // phis of non-scalar types fed by values earlier instructions defined
             if b > 0 {
@@ -228,8 +239,9 @@ pub fn subset_module(rng: &mut Rng, body_ops: &[SInst]) -> Vec<SInst> {
             // OpLine (skipped by the lifter) in front of the phis / between instructions
             let line_first = b > 0 && rng.chance(1, 3);
             if line_first { let at = v.iter().rposition(|x| x.op == 248).unwrap() + 1; v.insert(at, i(8, None, None, vec![idr(900), lit(1), lit(2)])); }
-            for _ in 0..rng.below(4) {
-                let r = n; n += 1;
+            let n_f = rng.below(4) + if b + 1 == nb { pending_f.len() } else { 0 };
+            for _ in 0..n_f {
+                let r = match pending_f.pop() { Some(r) => r, None => { n += 1; n - 1 } };
                 let a = if values_f.is_empty() || rng.chance(1, 2) { s.c_f } else { *rng.pick(&values_f) };
                 let op = *rng.pick(&[129u32, 131, 133]); // FAdd FSub FMul
                 v.push(i(op, Some(s.t_f32), Some(r), vec![idr(a), idr(s.c_f)]));
